@@ -135,14 +135,14 @@ pub fn run(which: &'static str, ctx: &Ctx, rep: &mut Report) -> Value {
         if ctx.wants_k("threefish", "Threefish::new_with_tweak") {
             cases.extend(sp::threefish_cases(ctx.tier));
         }
-        if cfg!(feature = "allfeat") && ctx.wants_k("aes", "hazmat") {
+        if cfg!(feature = "fh") && ctx.wants_k("aes", "hazmat") {
             cases.extend(sp::hazmat_cases(ctx.tier));
         }
         special_chunks(which, cases, rep, &chunks);
     }
     // hazmat functions are backend-dependent too; feature-off builds simply lack these chunks
     #[cfg(feature = "lite")]
-    if cfg!(feature = "allfeat") && ctx.wants_k("aes", "hazmat") {
+    if cfg!(feature = "fh") && ctx.wants_k("aes", "hazmat") {
         special_chunks(which, crate::special::hazmat_cases(ctx.tier), rep, &chunks);
     }
     let m = chunks.into_inner().unwrap();
